@@ -31,6 +31,11 @@ def obligations(ctx, pid):
     P = ctx.program
     K = ctx.contracts
     specified = {q for (q, v) in K.refs if pid in K.refs[(q, v)][2].get("props", [])}
+    from . import props as _props
+    try:
+        specified |= set(getattr(_props.get(pid), "PROTECTED", []))      # functions decided by a dedicated analysis (e.g. negate)
+    except Exception:
+        pass
     spec_all = {q for (q, v) in K.refs}
     touched = {q for q in ctx.touched if q in P.functions}
     scope_funcs = specified | touched
@@ -47,7 +52,7 @@ def obligations(ctx, pid):
             if m is None:
                 continue
             n_checked += 1
-            covered = any(k[0] == m.qualname for k in K.refs)
+            covered = any(k[0] == m.qualname for k in K.refs) or m.qualname in specified
             if not covered:
                 obs.append(Ob(f"E0.override:{m.qualname}", "E0.override", f"{m.file}:{m.node.lineno} {m.qualname}", "violation",
                               f"{m.qualname} overrides the specified method {q} and is not covered by any reference: the behaviour "
@@ -55,6 +60,33 @@ def obligations(ctx, pid):
                               key=f"E0.override:{m.qualname}"))
     obs.append(Ob("E0.override", "E0.override", f"{len(specified)} specified functions", "ok",
                   f"{n_checked} overriding definitions in subclasses, all covered by references"))
+    # ---- class hierarchy and dataclass fields of the classes owning specified functions
+    nh = 0
+    for rm in K.ref_modules:
+        for cname, bases in rm.class_bases.items():
+            cq = rm.target + "." + cname
+            if cq not in classes and not any(c in classes for c in [cq]):
+                # also protect classes that only inherit specified behaviour (e.g. ExactlyOne)
+                ci0 = P.classes.get(cq)
+                if ci0 is None or not any(b.qualname in classes for b in P.mro(ci0)):
+                    continue
+            ci = P.classes.get(cq)
+            if ci is None:
+                obs.append(Ob(f"E0.hierarchy:{cq}", "E0.hierarchy", cq, "violation", f"specified class {cq} no longer exists", key=f"E0.hierarchy:{cq}:missing"))
+                continue
+            nh += 1
+            got = [b for b in ci.base_names]
+            if got != bases:
+                obs.append(Ob(f"E0.hierarchy:{cq}", "E0.hierarchy", f"{ci.module.relpath}:{ci.node.lineno} {cq}", "violation",
+                              f"bases of {cq} are {got}, specified {bases}: inherited (specified) behaviour resolves differently",
+                              key=f"E0.hierarchy:{cq}:{','.join(got)}"))
+            fields = [b.target.id for b in ci.node.body if isinstance(b, ast.AnnAssign) and isinstance(b.target, ast.Name)]
+            want = rm.class_fields.get(cname, [])
+            if want and fields != want and pid in ("C16", "C17"):      # only serialisation depends on the field list
+                obs.append(Ob(f"E0.fields:{cq}", "E0.hierarchy", f"{ci.module.relpath}:{ci.node.lineno} {cq}", "violation",
+                              f"dataclass fields of {cq} are {fields}, specified {want} (dataclasses.asdict / generated methods depend on them)",
+                              key=f"E0.fields:{cq}:{','.join(fields)}"))
+    obs.append(Ob("E0.hierarchy", "E0.hierarchy", f"{nh} classes", "ok", "declared bases / dataclass fields agree with the specification (violations listed separately)"))
     # ---- attribute hooks
     bad = []
     for cq in sorted(classes):
